@@ -19,6 +19,10 @@ pub fn fixed_str_to_bytes<const MAX_LEN: usize>(
     if bytes.len() > MAX_LEN {
         return Err(FixedStrError::ExceedMaxLengthLimit);
     }
+    // A NUL byte terminates the string when it is read back.
+    if bytes.contains(&0) {
+        return Err(FixedStrError::InvalidFormat);
+    }
     let mut buffer = [0; MAX_LEN];
     buffer[..bytes.len()].copy_from_slice(bytes);
     Ok(buffer)
@@ -28,9 +32,8 @@ pub fn fixed_str_to_bytes<const MAX_LEN: usize>(
 pub fn bytes_to_fixed_str<const MAX_LEN: usize>(
     bytes: &[u8; MAX_LEN],
 ) -> Result<&str, FixedStrError> {
-    let Some(end) = bytes.iter().position(|&x| x == 0) else {
-        return Err(FixedStrError::InvalidFormat);
-    };
+    // A string that exactly fills the buffer has no terminator.
+    let end = bytes.iter().position(|&x| x == 0).unwrap_or(MAX_LEN);
     let valid_bytes = &bytes[..end];
     Ok(std::str::from_utf8(valid_bytes)?)
 }
